@@ -990,8 +990,6 @@ def run(ctx):
   import fedjax
   from fedjax.core import serialization as ser
   from fedjax.core import sqlite_federated_data as sfd
-  if sys.byteorder != 'little':
-    pass  # generalised through newbyteorder('S'); nothing host specific below
   oracle_self_check()
   scratch = tempfile.mkdtemp(prefix='c16-', dir=os.environ.get('VMON_WORK') or None)
   try:
